@@ -121,6 +121,11 @@ def lookupsMatch (pools : List Pool) (pq : String) : Bool :=
   want.all (fun w => byId.contains w) && byId.all (fun e => want.contains (unesc e)) &&
   want.all (fun w => byLpt.contains w) && byLpt.all (fun e => want.contains (unesc e))
 
+/-- parameter records equal up to the order of the per-swap maxima -/
+def paramsEq (a b : Params) : Bool :=
+  a.fee == b.fee && a.taxRate == b.taxRate && a.feeDenom == b.feeDenom && a.feeAmt == b.feeAmt && a.maxStd == b.maxStd &&
+  a.maxSwap.all (fun e => b.maxSwap.contains e) && b.maxSwap.all (fun e => a.maxSwap.contains e)
+
 def processLine (acc : Acc) (line : String) : Acc :=
   if line.startsWith "E " then
     { acc with env := parseEnv (kvOf ((line.drop 2).toString.splitOn " ")) }
@@ -139,7 +144,9 @@ def processLine (acc : Acc) (line : String) : Acc :=
     let (opToks, outToks, deltaToks) := splitOp line
     match opToks with
     | _ :: seq :: kind :: args =>
-      match parseOp kind (kvOf args) with
+      -- `csparams`: a parameter update on a branch that is then discarded (always `later=1`): for the model a re-statement of
+      -- the enacted parameters, for the implementation whatever the real handler did before the transaction failed
+      match (if kind == "csparams" then some (Op.setParams acc.cur.params) else parseOp kind (kvOf args)) with
       | none => { acc with out := acc.out.push s!"{seq} E unparsed-op" }
       | some op =>
         let implOk := outToks.head? == some "ok"
@@ -166,6 +173,7 @@ def processLine (acc : Acc) (line : String) : Acc :=
         let viol := Spec.monitors.filterMap (fun (pid, name, f) => if f tr then none else some s!"{seq} V {pid} {name}")
         -- pool records as seen through the keeper's lookups: unchanged by a rejected message, and always the listed pools
         let viol := viol ++ (if !implOk && pq' != acc.pq then [s!"{seq} V C02 rejected_unchanged_lookups"] else []) ++
+          (if later && !implOk && !paramsEq implPost.params acc.cur.params then [s!"{seq} V C09 discarded_caps_unchanged", s!"{seq} V C02 rejected_unchanged_params"] else []) ++
           (if !lookupsMatch implPost.pools pq' then [s!"{seq} V C02 pool_lookups_match_listing", s!"{seq} V C18 pool_lookups_match_listing"] else [])
         let tag := s!"{branchOf acc.cur op}/{if implOk then "ok" else "rej"}/{opMagnitude op}{if later then "/later" else ""}"
         let l :=
